@@ -126,7 +126,7 @@ theorem opGetNext_doc (p : Pdu) (it : Option GetIter) (e : PyExc)
     · cases h; exact exc_table _
     · cases h; exact exc_table _
 
-theorem getBulkLoop_doc : ∀ (vars : List VarBind) (it : GetIter) (acc : List (Option (Bytes × PyScalar)))
+theorem getBulkLoop_doc : ∀ (vars : List VarBind) (it : GetIter) (acc : List (Option (Bytes × Bytes × PyScalar)))
     (out : PyOut) (e : PyExc), (getBulkLoop vars it acc).1 = .error out → out = .raise e → e ∈ Documented
   | [], _, _, _, _, h, _ => by simp [getBulkLoop] at h
   | var :: more, it, acc, out, e, h, he => by
